@@ -389,7 +389,7 @@ theorem C02T_D2_needed :
 --     part (every link has an existing non-link target with an accurate `toDir` flag, link texts resolve
 --     back to their target key, the cwd is an existing directory) is not an invariant of either backend
 --     (dangling links, links to links, a removed cwd are reachable: findings S9, S10), and its operation
---     part lists the Stdfs findings S6–S8, S11–S14, S16 (`C02T_D2_needed`: S6 along a history).
+--     part lists the Stdfs findings S6, S8, S11–S14, S16 (S7 is repaired) (`C02T_D2_needed`: S6 along a history).
 --   * the reference must answer every call (`refRun … = some _`): calls outside the reference (`mkfile_m`,
 --     `copy`, `copy_b`, `entry`, `entries`, the handle operations, `follow = true`) and calls it leaves
 --     `.unspecified` end the comparison; the invariant `Wf uᵢ` alone survives them (`C02T_stdfs_step_wf`
